@@ -575,3 +575,133 @@ Proof. vm_compute. reflexivity. Qed.
 Theorem C02_spec_ok_is_reference : forall s r o, spec_ok s r o = spec_ok_ref s r o.
 Proof. exact spec_ok_eq. Qed.
 Print Assumptions C02_spec_ok_is_reference.
+
+(* ---- Range and conditional requests (http.ServeContent behind serve_file) ------------------ *)
+(* every range net/http's parseRange returns lies inside the file, for EVERY header value and size *)
+Theorem C02_range_parse_inside_file :
+  forall (hdr : bytes) (size : N) (rs : list (N * N)),
+  parse_range hdr size = RRanges rs -> Forall (fun r => fst r + snd r <= size) rs.
+Proof. exact parse_range_inside. Qed.
+Print Assumptions C02_range_parse_inside_file.
+
+Example C02_range_parse_inside_file_nonvacuous :
+  parse_range (bs "bytes=0-2, 5-7 ,-2,999-,4-") 10 = RRanges [(0, 3); (5, 3); (8, 2); (4, 6)] /\
+  parse_range (bs "bytes=999-") 10 = RNoOverlap /\ parse_range (bs "bytes=5-2") 10 = RErr /\
+  parse_range (bs "bytes=-+2") 10 = RRanges [(8, 2)] /\ parse_range (bs "Bytes=0-1") 10 = RErr.
+Proof. vm_compute. repeat split; reflexivity. Qed.
+
+(* a 206 answer: at least one range, each inside the file, together no longer than the file *)
+Theorem C02_range_206_ranges :
+  forall (size : N) (q : cond) (rs : list (N * N)),
+  serve_content size q = CParts rs ->
+  Forall (fun r => fst r + snd r <= size) rs /\ rs <> [] /\ sum_lens rs <= size.
+Proof. exact serve_content_parts. Qed.
+Print Assumptions C02_range_206_ranges.
+
+Example C02_range_206_ranges_nonvacuous :
+  serve_content 10 (mkcond (bs "bytes=0-1,3-4") 0 0 0) = CParts [(0, 2); (3, 2)] /\
+  serve_content 10 (mkcond (bs "bytes=0-9,0-9") 0 0 0) = CFull /\
+  serve_content 10 (mkcond (bs "bytes=0-1") 2 1 1) = CParts [(0, 2)] /\
+  serve_content 10 (mkcond (bs "bytes=0-1") 0 1 0) = CNotModified /\
+  serve_content 10 (mkcond (bs "bytes=0-1") 0 0 2) = CFull /\
+  serve_content 10 (mkcond (bs "bytes=10-") 0 0 0) = CUnsat.
+Proof. vm_compute. repeat split; reflexivity. Qed.
+
+(* every piece of body ServeContent sends for a content is the slice of that content its range
+   names (or the whole of it) *)
+Theorem C02_range_body_is_slice_of_content :
+  forall (cnt : bytes) (q : cond) (p : bytes),
+  In p (content_body cnt (serve_content (blen cnt) q)) ->
+  exists pre post, cnt = pre ++ p ++ post /\
+    (p = cnt \/ exists r, p = piece cnt r /\ length pre = N.to_nat (fst r) /\
+                          length p = N.to_nat (snd r) /\ fst r + snd r <= blen cnt).
+Proof. exact content_body_slices. Qed.
+Print Assumptions C02_range_body_is_slice_of_content.
+
+Example C02_range_body_is_slice_of_content_nonvacuous :
+  content_body (bs "TOKAz9q-xy") (serve_content 10 (mkcond (bs "bytes=0-2,-2") 0 0 0)) = [bs "TOK"; bs "xy"].
+Proof. vm_compute. reflexivity. Qed.
+
+(* THE statement for Range / conditional requests: for EVERY site, request, Range header and
+   outcome of the validators, every piece of file content in the answer (200, 206 single or
+   multipart) is a slice of the content of the ONE node the request resolves to — a node of the
+   tree opened at the cleaned path / an index page / an accepted precompressed sibling of these,
+   a regular file, NOT hidden (so never a hidden file, never a hidden precompressed sibling) *)
+Theorem C02_range_content_from_the_visible_file :
+  forall (content : N -> bytes) (s : site) (r : request) (q : cond) (p : bytes),
+  In p (answer_body content r (respond (fun id => blen (content id)) s r q)) ->
+  exists n enc pre post,
+    handle s r = Serve n enc /\ q_meth r = 0 /\ In n (s_fs s) /\
+    served_from (s_pages s) (q_path r) (q_ae r) enc (n_path n) /\
+    n_dir n = false /\ is_hidden (s_fs s) (s_hide s) n = false /\
+    content (n_id n) = pre ++ p ++ post.
+Proof. exact respond_sound. Qed.
+Print Assumptions C02_range_content_from_the_visible_file.
+
+Example C02_range_content_from_the_visible_file_nonvacuous :
+  let s := mksite (bs "/srv/www") (bs "/srv/www/Casketfile") [SLASH] [SLASH] gen_archive_types in
+  let content := fun id : N => bs "TOKAz9q-xy" in
+  map (fun p => answer_body content (mkreq 0 (bs p) [] [] [])
+                  (respond (fun id => blen (content id)) s (mkreq 0 (bs p) [] [] []) (mkcond (bs "bytes=1-2,-1") 0 0 0)))
+      ["/a.txt"; "/Casketfile"; "/secret.txt"]
+  = [[bs "OK"; bs "y"]; []; []].
+Proof. vm_compute. reflexivity. Qed.
+
+(* HEAD, 304 and 416 carry no file content *)
+Theorem C02_range_304_416_head_no_content :
+  forall (content : N -> bytes) (s : site) (r : request) (q : cond),
+  let a := respond (fun id => blen (content id)) s r q in
+  q_meth r = 1 \/ answer_status a = 304 \/ answer_status a = 416 ->
+  answer_body content r a = [].
+Proof. exact respond_no_content. Qed.
+Print Assumptions C02_range_304_416_head_no_content.
+
+Example C02_range_304_416_head_no_content_nonvacuous :
+  let s := mksite (bs "/srv/www") (bs "/srv/www/Casketfile") [SLASH] [SLASH] gen_archive_types in
+  map (fun q => answer_status (respond (fun _ => 10) s (mkreq 0 (bs "/a.txt") [] [] []) q))
+      [mkcond [] 1 0 0; mkcond (bs "bytes=10-") 0 0 0; mkcond (bs "bytes=0-1") 0 0 0; no_cond]
+  = [304; 416; 206; 200].
+Proof. vm_compute. reflexivity. Qed.
+
+(* a validator that says "not modified" wins over any Range header; a failed If-Range never
+   yields a partial answer *)
+Theorem C02_range_validators :
+  forall (size : N) (q : cond),
+  ((c_inm q = 1 \/ (c_inm q = 0 /\ c_ims q = 1)) -> serve_content size q = CNotModified) /\
+  (c_ifr q = 2 -> serve_content size q = CNotModified \/ serve_content size q = CFull).
+Proof. exact range_validators. Qed.
+Print Assumptions C02_range_validators.
+
+(* Range / conditional headers change nothing unless the answer is a file; without them a file
+   answer is the whole file *)
+Theorem C02_range_only_file_answers :
+  forall (size_of : N -> N) (s : site) (r : request) (q : cond),
+  (forall o, respond size_of s r q = AOther o -> o = handle s r /\ (forall n enc, o <> Serve n enc)) /\
+  (forall n enc, handle s r = Serve n enc -> respond size_of s r no_cond = AContent n enc CFull).
+Proof. exact range_only_file_answers. Qed.
+Print Assumptions C02_range_only_file_answers.
+
+(* ---- the listing filter is exact (finding F-C02-8, repaired) -------------------------------- *)
+(* an entry of a directory is listed iff it is NOT hidden, where hidden is decided on the identity
+   os.Stat reports — for a symbolic link the identity of its followed target (that is the identity
+   the nodes of the symlink tree [stree_fs] carry): a link to a hidden file is not listed, a link
+   to a visible file is *)
+Theorem C02_listing_visible_iff_target_not_hidden :
+  forall (fs : fsys) (hide : list bytes) (kids : list node) (k : node),
+  In k (visible_kids fs hide kids) <-> In k kids /\ is_hidden fs hide k = false.
+Proof. exact visible_kids_exact. Qed.
+Print Assumptions C02_listing_visible_iff_target_not_hidden.
+
+(* the symlink tree: /l has links to the Casketfile (401) and to /secret.txt (hidden by `internal`):
+   neither is listed; the links to /in.txt and /d are *)
+Example C02_listing_visible_iff_target_not_hidden_nonvacuous :
+  let s := mksite_on stree_fs (bs "/s/root") (bs "/s/root/Casketfile") gen_c02_sinternal [SLASH] [SLASH] [] in
+  match handle s (mkreq 0 (bs "/l/") [] [] []) with
+  | Listing kids =>
+      (existsb (fun k => beq (n_path k) (bs "/l/to-casket")) kids,
+       existsb (fun k => beq (n_path k) (bs "/l/to-secret")) kids,
+       existsb (fun k => beq (n_path k) (bs "/l/to-in")) kids,
+       existsb (fun k => beq (n_path k) (bs "/l/to-dir")) kids)
+  | _ => (true, true, false, false)
+  end = (false, false, true, true).
+Proof. vm_compute. reflexivity. Qed.
